@@ -77,7 +77,7 @@ def run_soc_config(cfg, seed, tier):
     r = _c13._run_config((cfg[0][len(SOC_PREFIX):],) + tuple(cfg[1:]), seed, tier)
     r["cfg"] = cfg[0]
     r.pop("digests", None)
-    r["violations"] = [v for v in r.get("violations", []) if v["rule"].startswith(("decode.", "overlap.", "p2p."))]
+    r["violations"] = [v for v in r.get("violations", []) if v["rule"].startswith(("decode.", "overlap.", "p2p.", "route.probe"))]
     return r
 
 
